@@ -365,7 +365,7 @@ func H_C08_misc() {
 		vAssume(vAnd(x >= -(1<<15), x <= 1<<15))
 		return variants.VariantFromLong(x), x
 	}
-	switch vChoice("case", 13) {
+	switch vChoice("case", 14) {
 	case 0:
 		r, err, p := call(c.FindByName("e"), nil, ops)
 		vAssert(!p && err == nil && r != nil, "e:succeeds")
@@ -514,7 +514,21 @@ func H_C08_misc() {
 			vAssert(r.Type() == variants.Integer, "dayofweek:type")
 			if r.Type() == variants.Integer {
 				vAssert(r.AsInteger() == int(d.Weekday()), "dayofweek:value")
+				// 1970-01-01 was a Thursday (zone of the process: UTC)
+				vAssert(r.AsInteger() == int((sec/86400+4)%7), "dayofweek:counted-from-the-epoch")
 			}
+		}
+	case 13:
+		// a date-time carrying its own zone: the day of the week is that of its own calendar
+		// date (Monday 2024-01-01, any hour of that day, any whole-minute offset from -12h to +14h)
+		hour, min, offMin := vInt("hour"), vInt("min"), vInt("offset-min")
+		vAssume(vAnd(vAnd(hour >= 0, hour <= 23), vAnd(min >= 0, min <= 59)))
+		vAssume(vAnd(offMin >= -12*60, offMin <= 14*60))
+		d := time.Date(2024, time.January, 1, hour, min, 0, 0, time.FixedZone("zone", offMin*60))
+		r, err, p := call(c.FindByName("DayOfWeek"), []*variants.Variant{variants.VariantFromDateTime(d)}, ops)
+		vAssert(!p && err == nil && r != nil, "dayofweek:succeeds")
+		if r != nil && r.Type() == variants.Integer {
+			vAssert(r.AsInteger() == 1, "dayofweek:own-zone")
 		}
 	}
 	vDone()
